@@ -58,9 +58,19 @@ def Cfg.asize (c : Cfg) : Nat := 2 ^ (128 - c.aplen)
 def Cfg.acount (c : Cfg) : Nat := min 1000 (c.asize - 1)
 def Cfg.initialAddrs (c : Cfg) : List Nat := (List.range c.acount).map (fun i => c.abase + (i + 1))
 def Cfg.pstep (c : Cfg) : Nat := 2 ^ (128 - c.dlen)
-/-- NewPrefixPool: 2^(dlen − pplen) prefixes, at most 1000, index placed in bits [pplen, dlen) -/
-def Cfg.pcount (c : Cfg) : Nat := min 1000 (2 ^ (c.dlen - c.pplen))
-def Cfg.initialPrefixes (c : Cfg) : List Nat := (List.range c.pcount).map (fun i => c.pbase + i * c.pstep)
+/-- NewPrefixPool: `indexBits := delegationLen - ones` -/
+def Cfg.indexBits (c : Cfg) : Nat := c.dlen - c.pplen
+/-- NewPrefixPool: `numPrefixes := 1000; if indexBits < 10 { numPrefixes = 1 << indexBits }` -/
+def Cfg.pcount (c : Cfg) : Nat := if c.indexBits < 10 then 2 ^ c.indexBits else 1000
+/-- the inner loop of NewPrefixPool: for every bit `b < indexBits` of the index `i` that is set, the bit at position
+    `delegationLen - 1 - b` (counted from the most significant bit, i.e. weight `2^b * pstep`) is OR-ed into the
+    prefix.  Bits of `i` at or above `indexBits` are ignored.  The OR is an addition here: the base is masked to
+    `pplen` (net.ParseCIDR) and every placed bit lies in [pplen, dlen), so no two set bits ever coincide. -/
+def placeIndex (i indexBits step : Nat) : Nat :=
+  (List.range indexBits).foldl (fun acc b => if i.testBit b then acc + 2 ^ b * step else acc) 0
+/-- entry `i` of the free list NewPrefixPool builds -/
+def Cfg.prefixAt (c : Cfg) (i : Nat) : Nat := c.pbase + placeIndex i c.indexBits c.pstep
+def Cfg.initialPrefixes (c : Cfg) : List Nat := (List.range c.pcount).map c.prefixAt
 def Cfg.addrContains (c : Cfg) (a : Nat) : Bool := decide (c.abase ≤ a) && decide (a < c.abase + c.asize)
 def Cfg.addrOk (c : Cfg) (a : Nat) : Bool := decide (c.abase < a) && decide (a ≤ c.abase + c.acount)
 def Cfg.prefixOk (c : Cfg) (p : Nat) : Bool :=
